@@ -28,7 +28,20 @@ func c14checkLog(conn *vnet.FakeConn, ts []*expTmpl) {
 	for _, t := range ts {
 		byID[t.ref.ID] = t
 	}
+	var records uint32 // data records transmitted so far, in wire order
 	for i, w := range conn.Writes {
+		if pm, err := refcodec.ParseMsg(w.Data); err == nil {
+			if pm.SetID != 2 {
+				if t, ok := byID[pm.SetID]; ok {
+					if recs, _, err := refcodec.ParseDataBody(pm.Body, t.ref.Fields); err == nil {
+						records += uint32(len(recs))
+					}
+				}
+			}
+			if pm.Header.Seq != records {
+				vsched.Fail("sequence-on-wire", "write #%d (set id %d, thread %d) carries sequence number %d, but %d data records have been transmitted up to and including it", i, pm.SetID, w.Thread, pm.Header.Seq, records)
+			}
+		}
 		p, err := refcodec.StrictCheck(w.Data)
 		if err != nil {
 			vsched.Fail("malformed-write", "write #%d by thread %d is not one whole well-formed message: %v (%d bytes: %x)", i, w.Thread, err, len(w.Data), short(w.Data))
